@@ -591,3 +591,87 @@ Proof.
 Qed.
 
 End EndToEnd.
+
+(* ------------------------------------------------------------------------------------------- *)
+(** * Corollaries in the shape of the property, and the subscriber witness *)
+Section Corollaries.
+Context {V : Type}.
+Notation handler := (handler V).
+Notation mwspec := (mwspec V).
+Notation mheap := (mheap V).
+
+(** provider middleware are outside constructor middleware: the entries of one invocation of a
+    method composed with constructor ++ provider *)
+Lemma provider_outside_constructor : forall (cs ps : list mwspec) (core : handler) a ctr ro,
+  core (args_in (rev (cs ++ ps)) a) = (ctr, ro) ->
+  enter_ids (fst (compose core (map mw_of (cs ++ ps)) a))
+  = rev (map ms_id ps) ++ rev (map ms_id cs) ++ enter_ids ctr
+  /\ exit_ids (fst (compose core (map mw_of (cs ++ ps)) a))
+     = exit_ids ctr ++ match ro with Some _ => map ms_id cs ++ map ms_id ps | None => [] end.
+Proof.
+  intros cs ps core a ctr ro H. rewrite compose_std, H. destruct ro as [r|]; cbn [fst].
+  - rewrite !enter_ids_app, !exit_ids_app, enter_ids_enter_events, enter_ids_exit_events,
+      exit_ids_enter_events, exit_ids_exit_events.
+    rewrite app_nil_r, map_rev, map_app, rev_app_distr, <- app_assoc. cbn [app]. split; reflexivity.
+  - rewrite !enter_ids_app, !exit_ids_app, enter_ids_enter_events, exit_ids_enter_events.
+    rewrite app_nil_r, map_rev, map_app, rev_app_distr, <- app_assoc. cbn [app]. split; reflexivity.
+Qed.
+
+End Corollaries.
+
+Definition obs (id : Z) : mwspec Z := {| ms_id := id; ms_pre := fun a => a; ms_post := fun r => r |}.
+
+(** two subscribers built from one base slice that has spare capacity, and two providers: the second
+    constructor's append lands in the array the first subscriber kept *)
+Definition wit_heap : mheap Z := [[mw_of (obs 1); nil_mw]; [mw_of (obs 2)]; [mw_of (obs 9)]].
+Definition wit_ctor : slice := {| s_arr := 0; s_len := 1; s_cap := 2 |}.
+Definition wit_prov1 : slice := {| s_arr := 1; s_len := 1; s_cap := 1 |}.
+Definition wit_prov2 : slice := {| s_arr := 2; s_len := 1; s_cap := 1 |}.
+Definition wit_core : handler Z := fun a => ([ECore 2 a], Some [0%Z]).
+
+Lemma subscriber_alias_witness :
+  wf_slice wit_heap wit_ctor /\ wf_slice wit_heap wit_prov1 /\ wf_slice wit_heap wit_prov2
+  /\ append_safe wit_prov1 wit_ctor /\ append_safe wit_prov2 wit_ctor
+  /\ slice_elems wit_heap wit_ctor = map mw_of [obs 1]
+  /\ slice_elems wit_heap wit_prov1 = map mw_of [obs 2]
+  /\ let '(h1, sub1) := new_subscriber wit_heap wit_prov1 wit_ctor in
+     let '(h2, sub2) := new_subscriber h1 wit_prov2 wit_ctor in
+     enter_ids (fst (subscribe h1 sub1 wit_core [7; 8]%Z)) = rev (map ms_id ([obs 1] ++ [obs 2]))
+     /\ enter_ids (fst (subscribe h2 sub1 wit_core [7; 8]%Z)) = [9; 1]%Z
+     /\ enter_ids (fst (subscribe h2 sub1 wit_core [7; 8]%Z)) <> rev (map ms_id ([obs 1] ++ [obs 2])).
+Proof.
+  unfold wf_slice, append_safe. cbn.
+  repeat split; try lia; try (right; split; [lia | reflexivity]); try (left; lia).
+  discriminate.
+Qed.
+
+Lemma subscriber_keeps_callers_array_refuted :
+  exists (h : mheap Z) (ctor prov1 prov2 : slice) (cs ps : list (mwspec Z)) (core : handler Z) (a : list Z),
+    wf_slice h ctor /\ wf_slice h prov1 /\ wf_slice h prov2
+    /\ append_safe prov1 ctor /\ append_safe prov2 ctor
+    /\ slice_elems h ctor = map mw_of cs /\ slice_elems h prov1 = map mw_of ps
+    /\ let '(h1, sub1) := new_subscriber h prov1 ctor in
+       let '(h2, sub2) := new_subscriber h1 prov2 ctor in
+       enter_ids (fst (subscribe h1 sub1 core a)) = rev (map ms_id (cs ++ ps))
+       /\ enter_ids (fst (subscribe h2 sub1 core a)) <> rev (map ms_id (cs ++ ps)).
+Proof.
+  exists wit_heap, wit_ctor, wit_prov1, wit_prov2, [obs 1%Z], [obs 2%Z], wit_core, [7%Z; 8%Z].
+  pose proof subscriber_alias_witness as (W1 & W2 & W3 & S1 & S2 & E1 & E2 & H).
+  repeat (split; [assumption|]).
+  destruct (new_subscriber wit_heap wit_prov1 wit_ctor) as [h1 sub1].
+  destruct (new_subscriber h1 wit_prov2 wit_ctor) as [h2 sub2].
+  destruct H as (Ha & _ & Hc). exact (conj Ha Hc).
+Qed.
+
+Lemma observers_transparent : forall (V : Type) (ms : list (mwspec V)) (a r : list V),
+  Forall observer ms -> args_in (rev ms) a = a /\ res_out ms r = r.
+Proof.
+  intros V ms a r H. split.
+  - apply args_in_observers, Forall_rev_iff, H.
+  - apply res_out_observers, H.
+Qed.
+
+Lemma later_wraps_earlier : forall (V : Type) (ms : list (middleware V)) (m : middleware V) (core : handler V),
+  compose core (ms ++ [m]) = m (compose core ms)
+  /\ add_middleware m (compose core ms) = compose core (ms ++ [m]).
+Proof. intros V ms m core. exact (conj (compose_snoc ms m core) (add_middleware_is_snoc ms m core)). Qed.
